@@ -21,6 +21,8 @@ MANIFEST = dict(
     engines=[dict(name="E-parse", path="harness/src/eng_parse.rs, eng_parsesafe.rs, treedump.rs + coq/extract/eng_parse.ml, tree_io.ml",
                   kind_free_text="differential: lex+parse_gold vs extracted Coq lexer+parser model; complete tree dump, remaining length, ordered diagnostics with messages")],
 )
+MANIFEST["text"] += ' Fourth session: a remainder that is not the tail of the token list counts as unconsumed input.'
+
 ASSUMPTIONS = [
     "stack depth in bytes is measured on a 2 MB thread, not proved (the theorem bounds the recursion depth by the number of tokens)",
     "token type, keyword and node-kind tables are regenerated from /repo/src on every run (translators T1, T2, T5)",
